@@ -76,7 +76,7 @@ func WriteEvidence(c *CheckCtx, level string, wall time.Duration, sites []instru
 			"runs_per_hour":        int64(float64(evals) / hours),
 			"simulations_per_hour": int64(float64(c.sims.Load()) / hours),
 			"logical_time_events":  other["events"] + other["infl-steps"],
-			"simulated_time_note":  "gengo reads no clock; simulated time is the number of logical events executed (callbacks + file-system calls, or scheduler steps)",
+			"simulated_time_note":  "logical time: the number of events executed (callbacks + file-system calls, or scheduler steps). The clock seam turns events into simulated seconds for code that reads time (on this tree only the logger does: durations in log lines)",
 			"faults_fired":         faults,
 			"probes":               probes,
 			"distinct_traces":      len(st.Traces),
